@@ -184,7 +184,15 @@ def tree_tasks(moddir, letters, order, golden, depths, plen):
 
 def tree_depths(run):
     """complete history length per mode"""
-    return {"reuse": 4, "fresh": 3} if run.thorough else {"reuse": 3, "fresh": 2}
+    d = {"reuse": 4, "fresh": 3} if run.thorough else {"reuse": 3, "fresh": 2}
+    ov = os.environ.get("VERIF_C11_DEPTH")  # development aid only, e.g. "reuse=2,fresh=1"
+    if ov:
+        for part in ov.split(","):
+            k, v = part.split("=")
+            d[k] = int(v)
+        run.capped = True
+        run.note(f"VERIF_C11_DEPTH set: history depth reduced to {d}")
+    return d
 
 
 def collect(run, tasks, devs, label):
